@@ -168,10 +168,19 @@ func (v *ScriptView) generateDatabaseScriptModify(tableDetails []TableDetails,
 	for _, tableDetail := range tableDetails {
 		switch tableDetail.action {
 		case "ADD":
-			v.writeCreateSQLForATable(tableDetail.name, tableDetail.table.GetRelation(), visitedAttributes)
+			// the type map of an application also holds its non-table types
+			if relEntity := tableDetail.table.GetRelation(); relEntity != nil {
+				v.writeCreateSQLForATable(tableDetail.name, relEntity, visitedAttributes)
+			}
 		case "RETAIN":
-			v.writeModifySQLForATable(tableDetail.name, tableDetail.table.GetRelation(),
-				tableDetail.tableOld.GetRelation(), visitedAttributes)
+			relEntity, relEntityOld := tableDetail.table.GetRelation(), tableDetail.tableOld.GetRelation()
+			switch {
+			case relEntity != nil && relEntityOld != nil:
+				v.writeModifySQLForATable(tableDetail.name, relEntity, relEntityOld, visitedAttributes)
+			case relEntity != nil:
+				// the name denoted a non-table type before: the table is new
+				v.writeCreateSQLForATable(tableDetail.name, relEntity, visitedAttributes)
+			}
 		default:
 			v.logger.Warnf("the table action is spcified as %s, which is not valid. Hence ignored\n",
 				tableDetail.action)
